@@ -343,19 +343,21 @@ Section Codec.
       end
     end.
 
-  (* one sector of read_sectored_file *)
-  Definition read_sector (enc : bool) (key : N) (i : N) (raw : list N) (expected : N) (compressed : bool) : list N :=
+  (* one sector of read_sectored_file; None where the library falls back to zeros *)
+  Definition read_sector_opt (enc : bool) (key : N) (i : N) (raw : list N) (expected : N) (compressed : bool) : option (list N) :=
     let d := if enc then decrypt_file_data raw (add32 key i) else raw in
     if compressed && (lenN d <? expected) then
       match d with
-      | [] => repeat 0 (N.to_nat expected)
-      | m :: payload =>
-        match decompress m payload expected with
-        | Some o => o
-        | None => repeat 0 (N.to_nat expected)          (* "Using zeros" recovery *)
-        end
+      | [] => None
+      | m :: payload => decompress m payload expected
       end
-    else firstn (N.to_nat (N.min expected (lenN d))) d.
+    else Some (firstn (N.to_nat (N.min expected (lenN d))) d).
+
+  Definition read_sector (enc : bool) (key : N) (i : N) (raw : list N) (expected : N) (compressed : bool) : list N :=
+    match read_sector_opt enc key i raw expected compressed with
+    | Some o => o
+    | None => repeat 0 (N.to_nat expected)          (* "Using zeros" recovery *)
+    end.
 
   Fixpoint read_sectors (fuel : nat) (a : list N) (pos : N) (offs : list N) (enc : bool) (key i remaining ssz : N) (compressed : bool) : list N :=
     match fuel, offs with
@@ -365,6 +367,41 @@ Section Codec.
                  else read_sector enc key i (slice a (pos + s) (e - s)) expected compressed in
       out ++ read_sectors f a pos rest enc key (i + 1) (remaining - lenN out) ssz compressed
     | _, _ => []
+    end.
+
+  (* read_sectored_file with the checksum table ArchiveBuilder writes: ADLER32 of every uncompressed sector *)
+  Fixpoint read_sectors_chk (fuel : nat) (a : list N) (pos : N) (offs crcs : list N) (enc : bool) (key i remaining ssz : N) : option (list N) :=
+    match fuel, offs, crcs with
+    | S f, s :: ((e :: _) as rest), k :: crest =>
+      let expected := N.min remaining ssz in
+      let out := if e <? s then repeat 0 (N.to_nat expected)
+                 else read_sector enc key i (slice a (pos + s) (e - s)) expected true in
+      if adler32 out =? k then
+        match read_sectors_chk f a pos rest crest enc key (i + 1) (remaining - lenN out) ssz with
+        | Some r => Some (out ++ r)
+        | None => None
+        end
+      else None
+    | S _, _, _ => None
+    | O, _, _ => Some []
+    end.
+
+  (* read_sectored_file for a file that carries checksums which cannot be used: no zero recovery *)
+  Fixpoint read_sectors_nr (fuel : nat) (a : list N) (pos : N) (offs : list N) (enc : bool) (key i remaining ssz : N) : option (list N) :=
+    match fuel, offs with
+    | S f, s :: ((e :: _) as rest) =>
+      let expected := N.min remaining ssz in
+      if e <? s then None else
+      match read_sector_opt enc key i (slice a (pos + s) (e - s)) expected true with
+      | None => None
+      | Some out =>
+        match read_sectors_nr f a pos rest enc key (i + 1) (remaining - lenN out) ssz with
+        | Some r => Some (out ++ r)
+        | None => None
+        end
+      end
+    | S _, _ => None
+    | O, _ => Some []
     end.
 
   (* Archive::read_file *)
@@ -425,6 +462,25 @@ Section Codec.
         if lenN tbl_raw <? (nsec + 1) * 4 then RErr else
         let tbl := if enc then decrypt_file_data tbl_raw (sub32 key 1) else tbl_raw in
         let offs := words_of_bytes (N.to_nat (nsec + 1)) tbl in
+        let first := nth 0 offs 0 in
+        let last := nth (N.to_nat nsec) offs 0 in
+        let tblsz := (nsec + 1) * 4 in
+        let crcsz := nsec * 4 in
+        if has_flag fl fl_sector_crc then
+          let lib := (last =? b_csize b + crcsz) || ((first =? tblsz + crcsz) && (b_csize b <? last)) in
+          let crc_raw := slice (a_bytes a) (b_pos b + tblsz) crcsz in
+          if (lib || (tblsz + crcsz <=? first)) && (lenN crc_raw <? crcsz) then RErr else
+          if lib then
+            match read_sectors_chk (N.to_nat nsec) (a_bytes a) (b_pos b) offs (words_of_bytes (N.to_nat nsec) crc_raw) enc key 0 (b_fsize b) ssz with
+            | Some d => ROk d
+            | None => RErr
+            end
+          else
+            match read_sectors_nr (N.to_nat nsec) (a_bytes a) (b_pos b) offs enc key 0 (b_fsize b) ssz with
+            | Some d => ROk d
+            | None => RErr
+            end
+        else
         ROk (read_sectors (N.to_nat nsec) (a_bytes a) (b_pos b) offs enc key 0 (b_fsize b) ssz true)
     end.
 
